@@ -187,6 +187,8 @@ class JournalFileSymlinkLock(BaseJournalFileLock):
                             try:
                                 self.release()
                                 sleep_secs = 0.001
+                                # The lock file created next is a different one: restart the timer.
+                                last_update_monotonic_time = time.monotonic()
                             except RuntimeError:
                                 continue
 
@@ -270,6 +272,8 @@ class JournalFileOpenLock(BaseJournalFileLock):
                             try:
                                 self.release()
                                 sleep_secs = 0.001
+                                # The lock file created next is a different one: restart the timer.
+                                last_update_monotonic_time = time.monotonic()
                             except RuntimeError:
                                 continue
 
